@@ -72,6 +72,10 @@ pub struct Case {
     /// is present as well; the transfer coding is still what it is
     #[serde(default)]
     pub ce_beside_te: u8,
+    /// (bodies consumed by a helper - bytes, text, json, write_to - which like std's read_to_end simply read again) positions
+    /// behind the head at which a read of the transport is interrupted (EINTR) once
+    #[serde(default)]
+    pub interrupts: Vec<u16>,
 }
 
 pub const CONTENT_TYPES: &[&str] = &["", "text/plain", "application/gzip", "application/x-gzip", "Application/GZIP; q=1", "application/octet-stream", "application/zlib", "application/json"];
@@ -229,9 +233,9 @@ non-trivial = payload non-empty and one of {>=2 deflate blocks, >=2 segments, a 
                 2 => any::<u16>().prop_map(Fault::Trunc),
                 2 => (0u8..64).prop_map(Fault::TrailerBit),
             ],
-            (prop::bool::weighted(0.85), 0u8..STATUSES.len() as u8, prop_oneof![2 => Just(0u8), 3 => 1u8..CONTENT_TYPES.len() as u8], prop_oneof![3 => Just(0u8), 1 => Just(1u8), 2 => Just(2u8)], prop::bool::weighted(0.2), prop_oneof![2 => Just(0u8), 1 => Just(1u8), 1 => Just(2u8)]),
+            (prop::bool::weighted(0.85), 0u8..STATUSES.len() as u8, prop_oneof![2 => Just(0u8), 3 => 1u8..CONTENT_TYPES.len() as u8], prop_oneof![3 => Just(0u8), 1 => Just(1u8), 2 => Just(2u8)], prop::bool::weighted(0.2), prop_oneof![2 => Just(0u8), 1 => Just(1u8), 1 => Just(2u8)], prop_oneof![4 => Just(vec![]), 1 => proptest::collection::vec(any::<u16>(), 1..3)]),
         )
-            .prop_map(|(payload, coding, encoder, gz, via_te, token_style, method, framing, seg, reads, fault, (allow_compression, status, content_type, after_frame, req_range, ce_beside_te))| Case {
+            .prop_map(|(payload, coding, encoder, gz, via_te, token_style, method, framing, seg, reads, fault, (allow_compression, status, content_type, after_frame, req_range, ce_beside_te, interrupts))| Case {
                 payload,
                 coding,
                 encoder,
@@ -249,6 +253,7 @@ non-trivial = payload non-empty and one of {>=2 deflate blocks, >=2 segments, a 
                 after_frame,
                 req_range,
                 ce_beside_te,
+                interrupts,
             })
             .boxed()
     }
@@ -367,6 +372,25 @@ non-trivial = payload non-empty and one of {>=2 deflate blocks, >=2 segments, a 
             }
             let mut events = case.seg.split(&built.wire, &built.structural);
             multi_seg |= events.len() >= 2;
+            if !case.interrupts.is_empty() && matches!(case.reads, gen::ReadPlan::Bytes | gen::ReadPlan::WriteTo | gen::ReadPlan::TextUtf8 | gen::ReadPlan::Json | gen::ReadPlan::WriteToShort(_)) {
+                let mut off = 0;
+                let mut first_body_ev = events.len();
+                for (i, e) in events.iter().enumerate() {
+                    if off >= built.head_end {
+                        first_body_ev = i;
+                        break;
+                    }
+                    if let Ev::Data(d) = e {
+                        off += d.len();
+                    }
+                }
+                let mut at: Vec<usize> = case.interrupts.iter().map(|f| first_body_ev + (((*f as usize) * (events.len() - first_body_ev + 1)) >> 16)).collect();
+                at.sort_unstable();
+                for (k, a) in at.into_iter().enumerate() {
+                    events.insert((a + k).min(events.len()), Ev::Err(std::io::ErrorKind::Interrupted));
+                }
+                ctx.label("interrupted-transport-reads");
+            }
             events.push(Ev::Eof);
             let (_guard, net) = serve_scripts(vec![events]);
             let mut rb = attohttpc::RequestBuilder::new(method.clone(), BASE_URL)
